@@ -93,8 +93,17 @@ fn gen_program(rng: &mut Rng, family: u8) -> Option<Prog> {
         b.emit(&[0x02, 0x44, 0x02]);
         b.st_abs_imm(0xF9, 0x01);
     } else {
-        b.emit(&[0xFB, 0x01, 0x5F, 0xF9]); // BITS (0xF9), #1
+        // BITS (0xF9), #mask: the key bit, sometimes together with other enable bits
+        let mask = *rng.pick(&[0x01u8, 0x01, 0x01, 0x31, 0x3F, 0x03]);
+        b.emit(&[0xFB, mask, 0x5F, 0xF9]);
         b.emit(&[0x08]); // EI
+    }
+    if family == 4 {
+        // a regular stop in the middle of the program: the run is continued with the CONTINUE
+        // key; a key press while the machine is stopped must be served after the continue
+        b.ld_imm(0, 5);
+        b.emit(&[0x01]);
+        b.unary(0x44, 0);
     }
     let subs: Vec<_> = (0..2).map(|_| b.label()).collect();
     let o = BodyOpts { statements: 6 + rng.usize(14), ie_changes: family == 2, outputs: true };
@@ -154,6 +163,8 @@ struct Reference {
     boundaries: Vec<(usize, Arch)>,
     fin: Machine,
     last_sample: usize,
+    /// cycle index at which the machine sat in its intermediate regular stop (family 4)
+    continued_at: Option<usize>,
 }
 
 fn reference_run(p: &Prog) -> Option<Reference> {
@@ -163,8 +174,14 @@ fn reference_run(p: &Prog) -> Option<Reference> {
     let mut last_sample = 0;
     let mut prev_done = m.is_instruction_done();
     verif::set_fuel(Some(10_000));
+    let mut continued_at = None;
     for t in 0..6000 {
-        if m.state() != State::Running {
+        let stopped_midway = m.state() == State::Stopped && p.family == 4 && continued_at.is_none();
+        if stopped_midway {
+            // the stopped machine is a trigger point of its own: its snapshot is taken below,
+            // the CONTINUE key is pressed right before this cycle's clock edge
+            continued_at = Some(t);
+        } else if m.state() != State::Running {
             break;
         }
         let s = m.verif_snapshot();
@@ -172,6 +189,9 @@ fn reference_run(p: &Prog) -> Option<Reference> {
             last_sample = t;
         }
         snaps.push(m.clone());
+        if stopped_midway {
+            m.trigger_key_continue();
+        }
         real::edge(&mut m);
         let d = m.is_instruction_done();
         if d && !prev_done {
@@ -183,7 +203,7 @@ fn reference_run(p: &Prog) -> Option<Reference> {
     if m.state() != State::Stopped || snaps.len() < 80 {
         return None;
     }
-    Some(Reference { snaps, boundaries, fin: m, last_sample })
+    Some(Reference { snaps, boundaries, fin: m, last_sample, continued_at })
 }
 
 type V = (String, String);
@@ -206,7 +226,8 @@ fn interrupted_run(r: &Reference, t0: usize, triggers: &[usize], check_entry: bo
     let mut t = t0;
     let mut reti_trigger = false;
     let mut must_enter = 0u32;
-    while m.state() == State::Running && t < max {
+    let mut continued = r.continued_at.map(|c| t0 > c).unwrap_or(true);
+    while (m.state() == State::Running || (m.state() == State::Stopped && !continued)) && t < max {
         if triggers.contains(&t) {
             let s = m.verif_snapshot();
             if t != t0 {
@@ -231,6 +252,11 @@ fn interrupted_run(r: &Reference, t0: usize, triggers: &[usize], check_entry: bo
                     must_enter += 1;
                 }
             }
+        }
+        if m.state() == State::Stopped && !continued {
+            continued = true;
+            m.trigger_key_continue();
+            rep.inc("presses_while_stopped_possible");
         }
         real::edge(&mut m);
         let d = m.is_instruction_done();
@@ -461,6 +487,7 @@ pub fn run(ctx: &Ctx) -> Report {
         let family = match i % 8 {
             3 => 2,
             7 => 3,
+            5 => 4,
             _ => 1,
         };
         let p = match gen_program(&mut rng, family) {
